@@ -157,6 +157,16 @@ func (so *Sorts) sortOf(t types.Type) string {
 			so.sig.Funs[has] = &FunSig{Args: []string{ms, ks}, Ret: "Bool"}
 			so.sig.Funs[get] = &FunSig{Args: []string{ms, ks}, Ret: es}
 			so.decls = append(so.decls, fmt.Sprintf("(declare-fun %s (%s %s) Bool)", has, ms, ks), fmt.Sprintf("(declare-fun %s (%s %s) %s)", get, ms, ks, es))
+			// construction: the empty map and insertion (maps built by the code: make + m[k] = v)
+			empty, put := "mapEmpty_"+ms, "mapPut_"+ms
+			so.sig.Funs[empty] = &FunSig{Args: nil, Ret: ms}
+			so.sig.Funs[put] = &FunSig{Args: []string{ms, ks, es}, Ret: ms}
+			so.decls = append(so.decls,
+				fmt.Sprintf("(declare-fun %s () %s)", empty, ms),
+				fmt.Sprintf("(declare-fun %s (%s %s %s) %s)", put, ms, ks, es, ms),
+				fmt.Sprintf("(assert (forall ((k %s)) (! (not (%s %s k)) :pattern ((%s %s k)))))", ks, has, empty, has, empty),
+				fmt.Sprintf("(assert (forall ((m %s) (k %s) (v %s) (k2 %s)) (! (= (%s (%s m k v) k2) (or (= k2 k) (%s m k2))) :pattern ((%s (%s m k v) k2)))))", ms, ks, es, ks, has, put, has, has, put),
+				fmt.Sprintf("(assert (forall ((m %s) (k %s) (v %s) (k2 %s)) (! (= (%s (%s m k v) k2) (ite (= k2 k) v (%s m k2))) :pattern ((%s (%s m k v) k2)))))", ms, ks, es, ks, get, put, get, get, put))
 		}
 		return ms
 	case *types.Signature:
